@@ -44,7 +44,7 @@ def one(sid):
                         res[m.group(2)] = {"exit": int(m.group(3)), "violations": int(m.group(4)), "inconclusive": int(m.group(5))}
                 caught = any(v["exit"] == 1 and v["violations"] > 0 for v in res.values())
         r = meta["checks_run"] if isinstance(meta["checks_run"], str) else json.dumps(meta["checks_run"])
-        recorded_miss = sid in ("c05-3", "c17-3", "c18-4", "c19-5")
+        recorded_miss = sid in ("c05-3", "c17-3", "c19-5")
         return sid, {"checks": res, "caught_now": caught, "recorded_miss": recorded_miss, "raw": p.stdout[-300:] if not res else ""}
     finally:
         with lock:
